@@ -732,3 +732,31 @@ def parity_prefix(ctx):
                 ctx.require(odd_is_3, 'keys:' + qn, 'the compressed prefix is chosen by `%s`: odd y gives %s, even y gives %s (SEC1: odd 03, even 02)' % (norm(e)[:60], res.get(1), res.get(2)), e,
                             'a public key imported in uncompressed form exports the compressed form of the NEGATED point: another address, and an xpub that carries the wrong key')
     ctx.floor(n, 4, 'parity selections')
+
+
+@PROP.obligation('C04.strict-forwarded', canaries=[
+    mut.replace_expr('keys', 'HDKey.__init__', 'Key.__init__(self, key, network, compressed, password, is_private)', 'Key.__init__(self, key, network, compressed, password, is_private, strict=depth == 0)', 'derived extended keys imported without the curve test'),
+])
+def strict_forwarded(ctx):
+    """The curve-membership test of Key.__init__ runs when `strict` is true (the default). Wherever the package passes a `strict`
+    argument on, it is a constant, the caller's own `strict` parameter or `self.strict` - never an expression over other data (depth,
+    key type, length ...), which would switch validation off for part of the inputs: an extended public key with depth >= 1 and an
+    off-curve point would become a key object with addresses nobody can spend from."""
+    n = 0
+    for modname in sorted(ctx.repo.modules):
+        m = ctx.repo.mod(modname)
+        for qn, fn in sorted(m.functions.items()):
+            for c in ast.walk(fn):
+                if not isinstance(c, ast.Call):
+                    continue
+                for k in c.keywords:
+                    if k.arg != 'strict':
+                        continue
+                    n += 1
+                    v = k.value
+                    ok = (isinstance(v, ast.Constant) and isinstance(v.value, bool)) or (isinstance(v, ast.Name) and v.id == 'strict') or norm(v) in ('self.strict', 'cls.strict')
+                    if not ok:
+                        ctx.violate('%s:%s' % (modname, qn), '`%s` is called with strict=%s: whether the input is validated depends on other data' % (norm(c.func)[:40], norm(v)[:40]), c,
+                                    'HDKey(xpub with depth >= 1 whose 02||x is not on the curve) is accepted: a key object and addresses for a point that does not exist')
+    ctx.saw('%d `strict=` arguments: each a constant or the caller\'s own strict' % n)
+    ctx.floor(n, 30, 'strict arguments')
